@@ -48,7 +48,7 @@ def gen_cases(tier, seed):
                 ("backup-auto-many-dirs", ["--backup", "auto"], "dirs"), ("backup-auto-many-dirs-b", ["--backup", "auto"], "dirs")]
     for vi, (vname, extra, content) in enumerate(variants):
         for driver in ("parblock", "parfile"):
-            if tier == "quick" and (vi + (driver == "parfile")) % 2:
+            if tier == "quick" and (vi + (driver == "parfile")) % 2 and content != "sparse":      # (the two drivers treat sparse files quite differently: both, always)
                 continue
             for n in (([300, 1150] if not extra else [200, 500]) if content == "deep" else ladder[:2] if tier == "quick" else ladder):
                 yield {"group": gid, "driver": driver, "workers": 4, "n": n, "sname": "slow-workers:" + vname, "plan": dict(scheds[0][1], sched_seed=r.randrange(1 << 30)),
